@@ -21,15 +21,18 @@ func init() {
 }
 
 // level configurations
-var c17Configs = []string{"nothing", "before", "after", "both", "spokfile", "spokfile+others", "spokdir"}
+var c17Configs = []string{"nothing", "before", "after", "both", "spokfile", "spokfile+others", "spokdir", "near-miss-names"}
 
 type c17case struct {
-	Levels []int  `json:"levels"` // config index per level, top first
-	Start  int    `json:"start"`  // level index
-	Stop   string `json:"stop"`   // "L<k>" | "sibling" | "below" | "base"
+	Levels []int  `json:"levels"`        // config index per level, top first
+	Start  int    `json:"start"`         // level index
+	Stop   string `json:"stop"`          // "L<k>" | "sibling" | "below" | "base"
+	Via    string `json:"via,omitempty"` // "alias": start and stop are given through a symlink to the chain's base
 }
 
-func (cs c17case) key() string { return fmt.Sprintf("%v/%d/%s", cs.Levels, cs.Start, cs.Stop) }
+func (cs c17case) key() string {
+	return fmt.Sprintf("%v/%d/%s/%s", cs.Levels, cs.Start, cs.Stop, cs.Via)
+}
 
 func c17Build(base string, levels []int) []string {
 	dirs := make([]string, len(levels))
@@ -60,6 +63,11 @@ func c17Build(base string, levels []int) []string {
 		case "spokdir":
 			_ = os.MkdirAll(filepath.Join(cur, "spokfile"), 0o755)
 			w("aaa", "")
+		case "near-miss-names":
+			w("Spokfile", sf)
+			w("spokfile.bak", sf)
+			w("aspokfile", sf)
+			w(".spokfile", sf)
 		}
 	}
 	_ = os.MkdirAll(filepath.Join(base, "sibling"), 0o755)
@@ -338,17 +346,31 @@ func c17Worker(c *core.Ctx) {
 		wl.Block(ci)
 		base := filepath.Join(root, fmt.Sprintf("c%d", ci), "home")
 		dirs := c17Build(base, lv)
+		// the same chain reached through a symbolic link (a linked home directory): the search is
+		// lexical, start and stop are both given through the link
+		alias := filepath.Join(root, fmt.Sprintf("c%d", ci), "alias")
+		_ = os.Symlink(base, alias)
+		adirs := make([]string, len(dirs))
+		for k, d := range dirs {
+			adirs[k] = alias + strings.TrimPrefix(d, base)
+		}
 		i := 0
 		for start := range lv {
 			for _, stop := range c17Stops(len(lv)) {
-				cs := c17case{Levels: lv, Start: start, Stop: stop}
-				if wl.Begin(ci, i, func() any { return cs }) {
-					for _, v := range c17Judge(base, dirs, cs, res) {
-						v.Case = core.JSON(cs)
-						res.Violate(v)
+				for _, via := range []string{"", "alias"} {
+					cs := c17case{Levels: lv, Start: start, Stop: stop, Via: via}
+					if wl.Begin(ci, i, func() any { return cs }) {
+						b, ds := base, dirs
+						if via == "alias" {
+							b, ds = alias, adirs
+						}
+						for _, v := range c17Judge(b, ds, cs, res) {
+							v.Case = core.JSON(cs)
+							res.Violate(v)
+						}
 					}
+					i++
 				}
-				i++
 			}
 		}
 		_ = os.RemoveAll(filepath.Join(root, fmt.Sprintf("c%d", ci)))
@@ -374,7 +396,7 @@ func c17Run(c *core.Ctx) bool {
 	cov := map[string]any{
 		"evaluations":         res.Evaluations,
 		"distinct_nontrivial": distinct,
-		"rule":                fmt.Sprintf("every directory chain of depth %v where each level independently holds one of %v (%d chains) x every start level x stop in {each level, an unrelated sibling directory, a directory below start, the directory above the chain}; file.Find is called in-process with a counting logger and the find.iter hook enforcing the step bound (iterations <= path components of start + 1); a sample also runs the race-built binary (--show, HOME = stop, cwd = start). non-trivial = every (chain, start, stop) triple (distinct by construction) whose result was compared with the reference", c17Depths(c), c17Configs, len(chains)),
+		"rule":                fmt.Sprintf("every directory chain of depth %v where each level independently holds one of %v (%d chains) x every start level x stop in {each level, an unrelated sibling directory, a directory below start, the directory above the chain}, each both directly and through a symbolic link to the chain's base; file.Find is called in-process with a counting logger and the find.iter hook enforcing the step bound (iterations <= path components of start + 1); a sample also runs the race-built binary (--show, HOME = stop, cwd = start). non-trivial = every (chain, start, stop) triple (distinct by construction) whose result was compared with the reference", c17Depths(c), c17Configs, len(chains)),
 		"samples":             res.Samples,
 		"counters":            res.Counters,
 		"chains":              res.Counters["chains"],
@@ -521,6 +543,14 @@ func c17Replay(c *core.Ctx, v core.Violation) []core.Violation {
 		defer os.RemoveAll(root)
 		base := filepath.Join(root, "x", "home")
 		dirs := c17Build(base, cs.Levels)
+		if cs.Via == "alias" {
+			alias := filepath.Join(root, "x", "alias")
+			_ = os.Symlink(base, alias)
+			for k, d := range dirs {
+				dirs[k] = alias + strings.TrimPrefix(d, base)
+			}
+			base = alias
+		}
 		vs = c17Judge(base, dirs, cs, res)
 	}
 	for i := range vs {
